@@ -264,6 +264,10 @@ pub enum DecompressBlockError {
     SequencesHeaderParseError(SequencesHeaderParseError),
     DecodeSequenceError(DecodeSequenceError),
     ExecuteSequencesError(ExecuteSequencesError),
+    LiteralsTooBig {
+        regenerated_size: u32,
+        max: u32,
+    },
 }
 
 #[cfg(feature = "std")]
@@ -300,6 +304,14 @@ impl core::fmt::Display for DecompressBlockError {
             DecompressBlockError::SequencesHeaderParseError(e) => write!(f, "{e:?}"),
             DecompressBlockError::DecodeSequenceError(e) => write!(f, "{e:?}"),
             DecompressBlockError::ExecuteSequencesError(e) => write!(f, "{e:?}"),
+            DecompressBlockError::LiteralsTooBig {
+                regenerated_size,
+                max,
+            } => {
+                write!(f,
+                    "Literals section would regenerate {regenerated_size} bytes, a block can hold at most {max}",
+                )
+            }
         }
     }
 }
@@ -684,6 +696,7 @@ pub enum ExecuteSequencesError {
     DecodebufferError(DecodeBufferError),
     NotEnoughBytesForSequence { wanted: usize, have: usize },
     ZeroOffset,
+    BlockTooBig { regenerated_size: u64, max: u32 },
 }
 
 impl core::fmt::Display for ExecuteSequencesError {
@@ -700,6 +713,15 @@ impl core::fmt::Display for ExecuteSequencesError {
             }
             ExecuteSequencesError::ZeroOffset => {
                 write!(f, "Illegal offset: 0 found")
+            }
+            ExecuteSequencesError::BlockTooBig {
+                regenerated_size,
+                max,
+            } => {
+                write!(
+                    f,
+                    "Block would regenerate {regenerated_size} bytes, a block can hold at most {max}"
+                )
             }
         }
     }
